@@ -44,7 +44,7 @@ def run(res, tier, seed):
     n = 250 if tier == "quick" else 2500
     res.rule = ("for each of the translated kernels: %d distinct seeded argument tuples satisfying the public-call precondition, sizes 0-4 per array on a binary lattice (empty series, single "
                 "sample, duplicates, empty IntervalSet, epochs before/after/between the samples), executed FOUR ways: compiled, compiled with NUMBA_BOUNDSCHECK=1 (own cache), .py_func, and the "
-                "translated Jit.Lang term in the extracted checked interpreter; all four must agree and none may report an out-of-bounds access or an unassigned read; plus 28 degenerate PUBLIC "
+                "translated Jit.Lang term in the extracted checked interpreter; all four must agree and none may report an out-of-bounds access or an unassigned read; plus 30 degenerate PUBLIC "
                 "calls under bounds checking. non-trivial = a case with at least one array of size 0 or 1; distinct = (kernel, arguments)" % n)
     meta = json.load(open(os.path.join(C.COQ, "Gen", "kernels.json")))
     plain = worker(n, seed, False, False)
